@@ -23,6 +23,7 @@ type GenCfg struct {
 	Subscriptions bool // a Subscription root type (one or two fields, each owned by one service)
 	RootNode      bool // queries may select the Relay entry point node(id:) at the root
 	Skeleton      bool // more selections that hold nothing but object-valued fields at the inner levels
+	NestedLists   bool // some list-typed fields are lists of lists
 	BigLists      bool
 	RichArgs      bool            // enum, list and input-object arguments
 	FragBase      int             // first number of generated fragment names (several operations in one document)
@@ -190,7 +191,16 @@ func Gen(r *rand.Rand, cfg GenCfg, id int) *World {
 			td.Order = append(td.Order, name)
 		}
 	}
+	var fieldType0 func(allowValue bool, owner int) TypeRef
 	fieldType := func(allowValue bool, owner int) TypeRef {
+		tr := fieldType0(allowValue, owner)
+		if cfg.NestedLists && tr.List && g.chance(0.5) {
+			tr.List2 = true
+			g.tag["nested-list"] = true
+		}
+		return tr
+	}
+	fieldType0 = func(allowValue bool, owner int) TypeRef {
 		if owner == sI && len(ifaces) > 0 && g.chance(0.25) {
 			return TypeRef{Name: ifaces[0], List: g.chance(0.5), ElemNN: g.chance(0.5)}
 		}
@@ -475,6 +485,19 @@ func (g *gen) genOne(tr TypeRef, nullable bool, depth int) Val {
 func (g *gen) genTyped(tr TypeRef, depth int) Val {
 	if tr.List && g.cfg.Off["listnull"] && !IsScalar(tr.Name) {
 		tr.ElemNN = true
+	}
+	if tr.List2 {
+		if !tr.NN && g.chance(0.1) {
+			return Z()
+		}
+		inner := tr
+		inner.List2, inner.NN = false, false
+		n := g.pick(3)
+		var vs []Val
+		for i := 0; i < n; i++ {
+			vs = append(vs, g.genTyped(inner, depth))
+		}
+		return L(vs...)
 	}
 	if tr.List {
 		if !tr.NN && g.chance(0.15) {
@@ -824,6 +847,9 @@ func (og *opgen) field(parent, name string, depth int) *Sel {
 	}
 	if !IsScalar(fd.Type.Name) {
 		s.Sub = og.selset(fd.Type.Name, depth)
+		if fd.Type.List2 {
+			og.tag["nested-list"] = true
+		}
 	}
 	return s
 }
